@@ -208,7 +208,48 @@ pub fn run(ctx: &Ctx) -> Report {
             rep.require("responses_with_multi_packet_message", 1);
         }
     }
+    rep.merge(super::mega::run(ctx, "C05", 1500, 60000));
+    // ---- (f) TLS upgrade: the reply to the handshake response sent INSIDE TLS continues that packet's id
+    if !ctx.miri {
+        if let Ok(m) = crate::tls::TlsMaterial::generate() {
+            let pairs: Vec<(u8, u8)> = vec![(1, 2), (1, 9), (1, 1), (1, 255), (200, 7), (255, 0), (0, 1), (3, 3)];
+            let mref = &m;
+            let r = par_cases(ctx, "C05", "tls-handshake-ids", pairs.len() as u64, |rng, i, rep| {
+                let seqs = pairs[i as usize];
+                let id = rng.below(256) as u8;
+                let c = super::c18::TlsCase { tls13: rng.bool(), with_cert: false, server_mode: 0, user: b"u".to_vec(), cmds: vec![Cmd::ping().seq(id), Cmd::quit()], scripts: vec![], first_cut: 0, cycle: vec![], write_limit: usize::MAX, close_notify: true, app_override: None, seqs };
+                let o = match super::c18::run_tls(mref, &c) {
+                    Ok(o) => o,
+                    Err(e) => {
+                        rep.inconclusive.push(format!("TLS harness error: {}", e));
+                        return;
+                    }
+                };
+                rep.evaluations += 1;
+                rep.counters.class(format!("tls handshake ids ssl={} response={}", seqs.0, seqs.1));
+                let d = || J::obj().set("ssl_request_id", seqs.0).set("handshake_response_id_inside_tls", seqs.1).set("ping_id", id).set("outcome", o.outcome.describe());
+                if let Outcome::Panic { file, line, msg } = &o.outcome {
+                    rep.violations.push(viol("C05", format!("C05 {}", panic_signature(file, *line, msg)), format!("run_on panicked: {}", o.outcome.describe()), d()));
+                    return;
+                }
+                let (pk, _) = wire::packets_prefix(&o.world.app_in);
+                if pk.len() < 2 || o.outcome != Outcome::Ok {
+                    rep.notes.push(format!("TLS id case skipped: outcome {} with {} decrypted packets", o.outcome.describe(), pk.len()));
+                    rep.counters.inc("skipped_nonconformant");
+                    return;
+                }
+                rep.counters.inc("tls_handshake_replies_checked");
+                if pk[0].seq != seqs.1.wrapping_add(1) {
+                    rep.violations.push(viol("C05", "C05 wrong-sequence-id tls-auth-reply".into(), format!("the reply to the in-TLS handshake response (id {}) carries id {}, expected {}", seqs.1, pk[0].seq, seqs.1.wrapping_add(1)), d()));
+                } else if pk[1].seq != id.wrapping_add(1) {
+                    rep.violations.push(viol("C05", "C05 wrong-sequence-id".into(), format!("PING with id {} over TLS answered with id {}", id, pk[1].seq), d()));
+                }
+            });
+            rep.merge(r);
+        }
+    }
     if ctx.strict() {
+        rep.require("tls_handshake_replies_checked", 4);
         rep.require("outbound_packets_checked", 1000);
         rep.require("responses_wrapping_around", 2);
         rep.require("multi_packet_requests", 1);
